@@ -18,7 +18,7 @@ ASSUMPTIONS = [
     "Unicode text = sequences of scalar values (no lone surrogates)",
     "a watchdog firing (30 s per tree) is reported as inconclusive, never as a violation",
 ]
-REQUIRED = ["first_use_probes", "repeatability_checks", "trees_valid", "trees_invalid", "tree_calls", "node_calls", "config_fault_cases", "depth_ge_50", "fanout_ge_30"]
+REQUIRED = ["trees_validated_again_after_in_place_edits", "first_use_probes", "repeatability_checks", "trees_valid", "trees_invalid", "tree_calls", "node_calls", "config_fault_cases", "depth_ge_50", "fanout_ge_30"]
 EXHAUSTIVE = {"quick": False, "thorough": False}
 
 
@@ -77,11 +77,13 @@ def call_both(ctx, fn, what, t, wit_fn):
     return ff_ok, errs
 
 
-def judge_tree(ctx, t, origin, log=None):
+def judge_tree(ctx, t, origin, log=None, history=None, all_nodes=False):
     plain = None
 
     def wit():
         nonlocal plain
+        if history is not None:
+            return dict(history, origin=origin, mutations=log or [])
         if plain is None:
             plain = {"tree": snapshot.to_plain(t), "origin": origin, "mutations": log or []}
         return plain
@@ -119,10 +121,16 @@ def judge_tree(ctx, t, origin, log=None):
                 except Exception:
                     pass
                 ctx.evaluated(2)
-            picks = nodes if len(nodes) <= 6 else ctx.rng.sample(nodes, 6)
+            picks = nodes if len(nodes) <= 6 or all_nodes else ctx.rng.sample(nodes, 6)
+            if history is not None and not all_nodes:
+                # the nodes that were edited, and their parents, are the ones whose verdict may be stale
+                now = treegen.all_nodes(t)
+                for i, _k, _a in history["edits"]:
+                    if i < len(now):
+                        picks = picks + [now[i]] + ([now[i].parent] if now[i].parent is not None else [])
             for n in picks:
                 call_both(ctx, mvalidate.node, f"validate.node(<{n.name}>)",
-                          n, lambda n=n: {"tree": snapshot.to_plain(n), "origin": origin + "/node", "node_only": True})
+                          n, (lambda n=n: {"tree": snapshot.to_plain(n), "origin": origin + "/node", "node_only": True}) if history is None else wit)
                 ctx.evaluated(2)
                 ctx.count("node_calls", 2)
     except emlkit_timeout():
@@ -134,6 +142,15 @@ def judge_tree(ctx, t, origin, log=None):
         ctx.count("trees_invalid")
         ctx.distinct(snapshot.value(t))
     return ff_ok, errs
+
+
+def edited_in_place(ctx, t, origin, log):
+    """The same tree objects after an editor changed them in place; everything validated before is validated again."""
+    before = snapshot.to_plain(t)
+    edits = treegen.edit_in_place(ctx.rng, t)
+    if edits:
+        ctx.count("trees_validated_again_after_in_place_edits")
+        judge_tree(ctx, t, origin + "+edited-in-place", log, history={"before": before, "edits": edits})
 
 
 def emlkit_timeout():
@@ -221,6 +238,8 @@ def run(ctx, params):
             size = rng.choice([1, 2, 3, 5, 8, 15, 30, 60, 120])
             t = anytrees.freeform(rng, gen, size)
             ff, errs = judge_tree(ctx, t, "freeform")
+            if rng.random() < 0.2:
+                edited_in_place(ctx, t, "freeform", None)
             if i % 997 == 0:
                 ctx.sample({"origin": "freeform", "nodes": len(treegen.all_nodes(t)), "failfast_ok": ff,
                             "collected": [e[0].name for e in (errs or [])][:8], "root": t.name})
@@ -228,6 +247,8 @@ def run(ctx, params):
         for i in range(params["mutated"]):
             t, log = anytrees.valid_mutated(rng, gen, rng.choice([5, 15, 40, 100]), rng.randint(0, 6))
             ff, errs = judge_tree(ctx, t, "valid+mutations", log)
+            if rng.random() < 0.3:
+                edited_in_place(ctx, t, "valid+mutations", log)
             if not log and ff is False:
                 ctx.count("generator_valid_tree_rejected")
             if i % 997 == 0:
@@ -271,6 +292,14 @@ def replay(ctx, witness):
         return
     if witness.get("config_fault"):
         config_fault(ctx)
+        ctx.distinct(1)
+        ctx.distinct(2)
+        return
+    if "before" in witness:
+        t = snapshot.from_plain(Node, witness["before"])
+        judge_tree(ctx, t, "replay", all_nodes=True)
+        treegen.apply_edits(t, witness["edits"])
+        judge_tree(ctx, t, "replay+edited-in-place", all_nodes=True)
         ctx.distinct(1)
         ctx.distinct(2)
         return
